@@ -1,2 +1,207 @@
-/* zkp ops */
-#define OPS_ZKP
+/* ops over generator / pedersen, rangeproof, surjection, whitelist, bppp */
+
+#define GEN 64
+#define COMMIT 64
+static void op_sizes(void) {
+    R_u64(sizeof(secp256k1_surjectionproof)); R_u64(sizeof(secp256k1_whitelist_signature)); R_u64(sizeof(secp256k1_ecdsa_s2c_opening));
+    R_u64(sizeof(secp256k1_context)); R_u64(sizeof(secp256k1_scalar)); R_u64(sizeof(secp256k1_fe));
+#ifdef VERIFY
+    R_int(1);
+#else
+    R_int(0);
+#endif
+}
+static void op_generator_h(void) { R_hex((const unsigned char *)secp256k1_generator_h, GEN); }
+static void op_generator_parse(void) { unsigned char *in = A_fix(0, 33, 0), *g = O_buf(GEN); int r; if (g_bad) return; CALL(r = secp256k1_generator_parse(ctx, (secp256k1_generator *)g, in)); R_int(r); R_hex(g, GEN); }
+static void op_generator_serialize(void) { unsigned char *g = A_fix(0, GEN, 0), *out = O_buf(33); int r; if (g_bad) return; CALL(r = secp256k1_generator_serialize(ctx, out, (secp256k1_generator *)g)); R_int(r); R_hex(out, 33); }
+static void op_generator_generate(void) { unsigned char *seed = A_fix(0, 32, 0), *g = O_buf(GEN); int r; if (g_bad) return; CALL(r = secp256k1_generator_generate(ctx, (secp256k1_generator *)g, seed)); R_int(r); R_hex(g, GEN); }
+static void op_generator_generate_blinded(void) { unsigned char *seed = A_fix(0, 32, 0), *bl = A_fix(1, 32, 0), *g = O_buf(GEN); int r; if (g_bad) return; CALL(r = secp256k1_generator_generate_blinded(ctx, (secp256k1_generator *)g, seed, bl)); R_int(r); R_hex(g, GEN); }
+static void op_commitment_parse(void) { unsigned char *in = A_fix(0, 33, 0), *c = O_buf(COMMIT); int r; if (g_bad) return; CALL(r = secp256k1_pedersen_commitment_parse(ctx, (secp256k1_pedersen_commitment *)c, in)); R_int(r); R_hex(c, COMMIT); }
+static void op_commitment_serialize(void) { unsigned char *c = A_fix(0, COMMIT, 0), *out = O_buf(33); int r; if (g_bad) return; CALL(r = secp256k1_pedersen_commitment_serialize(ctx, out, (secp256k1_pedersen_commitment *)c)); R_int(r); R_hex(out, 33); }
+static void op_pedersen_commit(void) { unsigned char *bl = A_fix(0, 32, 0); uint64_t v = A_u64(1); unsigned char *g = A_fix(2, GEN, 0), *c = O_buf(COMMIT); int r; if (g_bad) return; CALL(r = secp256k1_pedersen_commit(ctx, (secp256k1_pedersen_commitment *)c, bl, v, (secp256k1_generator *)g)); R_int(r); R_hex(c, COMMIT); }
+/* pedersen_blind_sum concat(blinds) n npositive */
+static void op_pedersen_blind_sum(void) {
+    size_t l; unsigned char *b = A_blob(0, &l); size_t n = (size_t)A_u64(1), np = (size_t)A_u64(2); unsigned char *out = O_buf(32); int r; void **pp;
+    if (g_bad) return; if (l != 32 * n) { bad("size", 0); return; }
+    pp = ptr_array(b, n, 32);
+    CALL(r = secp256k1_pedersen_blind_sum(ctx, out, (const unsigned char * const *)pp, n, np)); R_int(r); R_hex(out, 32);
+}
+/* pedersen_verify_tally concat(pos) npos concat(neg) nneg */
+static void op_pedersen_verify_tally(void) {
+    size_t lp, ln; unsigned char *pc = A_blob(0, &lp); size_t np = (size_t)A_u64(1); unsigned char *nc = A_blob(2, &ln); size_t nn = (size_t)A_u64(3); int r; void **pp, **qq;
+    if (g_bad) return; if (lp != COMMIT * np || ln != COMMIT * nn) { bad("size", 0); return; }
+    pp = ptr_array(pc, np, COMMIT); qq = ptr_array(nc, nn, COMMIT);
+    CALL(r = secp256k1_pedersen_verify_tally(ctx, (const secp256k1_pedersen_commitment * const *)pp, np, (const secp256k1_pedersen_commitment * const *)qq, nn)); R_int(r);
+}
+/* pedersen_bgbs values(8 bytes BE each) concat(generator_blinds) concat(blinding_factors) n_total n_inputs -> ret last_blinding_factor all_factors */
+static void op_pedersen_bgbs(void) {
+    size_t lv, lg, lb, i; unsigned char *vb = A_blob(0, &lv), *gb = A_blob(1, &lg), *bf = A_blob(2, &lb); size_t nt = (size_t)A_u64(3), ni = (size_t)A_u64(4); int r; void **pg, **pb; uint64_t *vals;
+    if (g_bad) return; if (lv != 8 * nt || lg != 32 * nt || lb != 32 * nt) { bad("size", 0); return; }
+    vals = (uint64_t *)keep(xmalloc(8 * nt));
+    for (i = 0; i < nt; i++) { int k; uint64_t v = 0; for (k = 0; k < 8; k++) v = (v << 8) | vb[8 * i + k]; vals[i] = v; }
+    pg = ptr_array(gb, nt, 32); pb = ptr_array(bf, nt, 32);
+    CALL(r = secp256k1_pedersen_blind_generator_blind_sum(ctx, vals, (const unsigned char * const *)pg, (unsigned char * const *)pb, nt, ni)); R_int(r);
+    R_hex(nt ? bf + 32 * (nt - 1) : NULL, 32); R_hex(bf, lb);
+}
+
+/* ---- rangeproof */
+/* rangeproof_sign buflen min_value commit blind nonce exp min_bits value message|- extra|- gen -> ret plen proof */
+static void op_rangeproof_sign(void) {
+    size_t bl = (size_t)A_u64(0), pl = bl, ml, el; uint64_t minv = A_u64(1); unsigned char *c = A_fix(2, COMMIT, 0), *bd = A_fix(3, 32, 0), *nonce = A_fix(4, 32, 0);
+    int exp = (int)A_int(5), minbits = (int)A_int(6); uint64_t val = A_u64(7); unsigned char *msg = A_blob(8, &ml), *ex = A_blob(9, &el), *g = A_fix(10, GEN, 0), *out = O_buf(bl); int r;
+    if (g_bad) return;
+    CALL(r = secp256k1_rangeproof_sign(ctx, out, &pl, minv, (secp256k1_pedersen_commitment *)c, bd, nonce, exp, minbits, val, msg, ml, ex, el, (secp256k1_generator *)g));
+    R_int(r); R_u64(pl); R_hex(out, bl);
+}
+/* rangeproof_verify commit proof extra|- gen -> ret min max */
+static void op_rangeproof_verify(void) {
+    size_t pl, el; unsigned char *c = A_fix(0, COMMIT, 0), *pf = A_blob(1, &pl), *ex = A_blob(2, &el), *g = A_fix(3, GEN, 0); uint64_t mn = 0x5a5a5a5a5a5a5a5aULL, mx = 0x5a5a5a5a5a5a5a5aULL; int r;
+    if (g_bad) return;
+    CALL(r = secp256k1_rangeproof_verify(ctx, &mn, &mx, (secp256k1_pedersen_commitment *)c, pf, pl, ex, el, (secp256k1_generator *)g)); R_int(r); R_u64(mn); R_u64(mx);
+}
+/* rangeproof_rewind flags msgbuflen nonce commit proof extra|- gen -> ret blind value msglen msg min max ; flags: 1 want blind, 2 want value, 4 want message */
+static void op_rangeproof_rewind(void) {
+    long fl = A_int(0); size_t mbl = (size_t)A_u64(1), ol = mbl, pl, el; unsigned char *nonce = A_fix(2, 32, 0), *c = A_fix(3, COMMIT, 0), *pf = A_blob(4, &pl), *ex = A_blob(5, &el), *g = A_fix(6, GEN, 0);
+    unsigned char *bo = (fl & 1) ? O_buf(32) : NULL, *mo = (fl & 4) ? O_buf(mbl) : NULL; uint64_t vo = 0x5a5a5a5a5a5a5a5aULL, mn = 0x5a5a5a5a5a5a5a5aULL, mx = 0x5a5a5a5a5a5a5a5aULL; int r;
+    if (g_bad) return;
+    CALL(r = secp256k1_rangeproof_rewind(ctx, bo, (fl & 2) ? &vo : NULL, mo, (fl & 4) ? &ol : NULL, nonce, &mn, &mx, (secp256k1_pedersen_commitment *)c, pf, pl, ex, el, (secp256k1_generator *)g));
+    R_int(r); R_hex(bo, 32); R_u64(vo); R_u64(ol); R_hex(mo, mbl); R_u64(mn); R_u64(mx);
+}
+static void op_rangeproof_info(void) {
+    size_t pl; unsigned char *pf = A_blob(0, &pl); int exp = -77, mant = -77, r; uint64_t mn = 0x5a5a5a5a5a5a5a5aULL, mx = 0x5a5a5a5a5a5a5a5aULL;
+    if (g_bad) return; CALL(r = secp256k1_rangeproof_info(ctx, &exp, &mant, &mn, &mx, pf, pl)); R_int(r); R_int(exp); R_int(mant); R_u64(mn); R_u64(mx);
+}
+static void op_rangeproof_max_size(void) { uint64_t mv = A_u64(0); int mb = (int)A_int(1); size_t s; CALL(s = secp256k1_rangeproof_max_size(ctx, mv, mb)); R_u64(s); }
+
+/* ---- surjection proofs */
+#define SURJ sizeof(secp256k1_surjectionproof)
+static void op_surj_parse(void) { size_t l; unsigned char *in = A_blob(0, &l), *p = O_buf(SURJ); int r; if (g_bad) return; CALL(r = secp256k1_surjectionproof_parse(ctx, (secp256k1_surjectionproof *)p, in, l)); R_int(r); R_hex(p, SURJ); }
+/* surj_serialize proof buflen -> ret outlen out */
+static void op_surj_serialize(void) { unsigned char *p = A_fix(0, SURJ, 0); size_t bl = (size_t)A_u64(1), ol = bl; unsigned char *out = O_buf(bl); int r; if (g_bad) return; CALL(r = secp256k1_surjectionproof_serialize(ctx, out, &ol, (secp256k1_surjectionproof *)p)); R_int(r); R_u64(ol); R_hex(out, bl); }
+static void op_surj_counts(void) { unsigned char *p = A_fix(0, SURJ, 0); size_t a, b, c; if (g_bad) return; CALL(a = secp256k1_surjectionproof_n_total_inputs(ctx, (secp256k1_surjectionproof *)p)); CALL(b = secp256k1_surjectionproof_n_used_inputs(ctx, (secp256k1_surjectionproof *)p)); CALL(c = secp256k1_surjectionproof_serialized_size(ctx, (secp256k1_surjectionproof *)p)); R_u64(a); R_u64(b); R_u64(c); }
+/* surj_initialize concat(tags32) n n_to_use output_tag32 max_iter seed32 alloc? -> ret input_index proof */
+static void op_surj_initialize(void) {
+    size_t l; unsigned char *tags = A_blob(0, &l); size_t n = (size_t)A_u64(1), use = (size_t)A_u64(2); unsigned char *ot = A_fix(3, 32, 0); size_t it = (size_t)A_u64(4); unsigned char *seed = A_fix(5, 32, 0); long alloc = A_int(6);
+    size_t idx = (size_t)-77; int r;
+    if (g_bad) return; if (l != 32 * n) { bad("size", 0); return; }
+    if (!alloc) {
+        unsigned char *p = O_buf(SURJ);
+        CALL(r = secp256k1_surjectionproof_initialize(ctx, (secp256k1_surjectionproof *)p, &idx, (secp256k1_fixed_asset_tag *)tags, n, use, (secp256k1_fixed_asset_tag *)ot, it, seed));
+        R_int(r); R_int((long long)idx); R_hex(p, SURJ);
+    } else {
+        secp256k1_surjectionproof *pp = NULL;
+        CALL(r = secp256k1_surjectionproof_allocate_initialized(ctx, &pp, &idx, (secp256k1_fixed_asset_tag *)tags, n, use, (secp256k1_fixed_asset_tag *)ot, it, seed));
+        R_int(r); R_int((long long)idx);
+        if (pp) { R_hex((unsigned char *)pp, SURJ); CALL(secp256k1_surjectionproof_destroy(pp)); } else R_hex(NULL, 0);
+    }
+}
+/* surj_generate proof concat(eph_inputs) n eph_output input_index in_key out_key -> ret proof */
+static void op_surj_generate(void) {
+    size_t l; unsigned char *p = A_fix(0, SURJ, 0), *ei = A_blob(1, &l); size_t n = (size_t)A_u64(2); unsigned char *eo = A_fix(3, GEN, 0); size_t idx = (size_t)A_u64(4); unsigned char *ik = A_fix(5, 32, 0), *ok = A_fix(6, 32, 0); int r;
+    if (g_bad) return; if (l != GEN * n) { bad("size", 1); return; }
+    CALL(r = secp256k1_surjectionproof_generate(ctx, (secp256k1_surjectionproof *)p, (secp256k1_generator *)ei, n, (secp256k1_generator *)eo, idx, ik, ok)); R_int(r); R_hex(p, SURJ);
+}
+static void op_surj_verify(void) {
+    size_t l; unsigned char *p = A_fix(0, SURJ, 0), *ei = A_blob(1, &l); size_t n = (size_t)A_u64(2); unsigned char *eo = A_fix(3, GEN, 0); int r;
+    if (g_bad) return; if (l != GEN * n) { bad("size", 1); return; }
+    CALL(r = secp256k1_surjectionproof_verify(ctx, (secp256k1_surjectionproof *)p, (secp256k1_generator *)ei, n, (secp256k1_generator *)eo)); R_int(r);
+}
+
+/* ---- whitelist */
+#define WL sizeof(secp256k1_whitelist_signature)
+static void op_wl_parse(void) { size_t l; unsigned char *in = A_blob(0, &l), *s = O_buf(WL); int r; if (g_bad) return; memset(s, 0, WL); CALL(r = secp256k1_whitelist_signature_parse(ctx, (secp256k1_whitelist_signature *)s, in, l)); R_int(r); R_hex(s, WL); }
+static void op_wl_serialize(void) { unsigned char *s = A_fix(0, WL, 0); size_t bl = (size_t)A_u64(1), ol = bl; unsigned char *out = O_buf(bl); int r; if (g_bad) return; CALL(r = secp256k1_whitelist_signature_serialize(ctx, out, &ol, (secp256k1_whitelist_signature *)s)); R_int(r); R_u64(ol); R_hex(out, bl); }
+static void op_wl_n_keys(void) { unsigned char *s = A_fix(0, WL, 0); size_t n; if (g_bad) return; CALL(n = secp256k1_whitelist_signature_n_keys((secp256k1_whitelist_signature *)s)); R_u64(n); }
+/* wl_sign concat(online) concat(offline) n sub online_sk summed_sk index -> ret sig */
+static void op_wl_sign(void) {
+    size_t lo, lf; unsigned char *on = A_blob(0, &lo), *off = A_blob(1, &lf); size_t n = (size_t)A_u64(2); unsigned char *sub = A_fix(3, PK, 0), *osk = A_fix(4, 32, 0), *ssk = A_fix(5, 32, 0); size_t idx = (size_t)A_u64(6);
+    unsigned char *s = O_buf(WL); int r;
+    if (g_bad) return; if (lo != PK * n || lf != PK * n) { bad("size", 0); return; }
+    memset(s, 0, WL);
+    CALL(r = secp256k1_whitelist_sign(ctx, (secp256k1_whitelist_signature *)s, (secp256k1_pubkey *)on, (secp256k1_pubkey *)off, n, (secp256k1_pubkey *)sub, osk, ssk, idx)); R_int(r); R_hex(s, WL);
+}
+static void op_wl_verify(void) {
+    size_t lo, lf; unsigned char *s = A_fix(0, WL, 0), *on = A_blob(1, &lo), *off = A_blob(2, &lf); size_t n = (size_t)A_u64(3); unsigned char *sub = A_fix(4, PK, 0); int r;
+    if (g_bad) return; if (lo != PK * n || lf != PK * n) { bad("size", 1); return; }
+    CALL(r = secp256k1_whitelist_verify(ctx, (secp256k1_whitelist_signature *)s, (secp256k1_pubkey *)on, (secp256k1_pubkey *)off, n, (secp256k1_pubkey *)sub)); R_int(r);
+}
+/* wl_verify_n: n_keys is passed as given, independent of the array sizes (n must not exceed the arrays) */
+static void op_wl_verify_n(void) {
+    size_t lo, lf; unsigned char *s = A_fix(0, WL, 0), *on = A_blob(1, &lo), *off = A_blob(2, &lf); size_t n = (size_t)A_u64(3); unsigned char *sub = A_fix(4, PK, 0); int r;
+    if (g_bad) return; if (lo < PK * n || lf < PK * n) { bad("size", 1); return; }
+    CALL(r = secp256k1_whitelist_verify(ctx, (secp256k1_whitelist_signature *)s, (secp256k1_pubkey *)on, (secp256k1_pubkey *)off, n, (secp256k1_pubkey *)sub)); R_int(r);
+}
+
+/* ---- BP++ */
+/* bppp_gens_create n -> nonnull serialized */
+static void op_bppp_gens_create(void) {
+    size_t n = (size_t)A_u64(0); secp256k1_bppp_generators *g; size_t l = 33 * n; unsigned char *out = O_buf(l); int r = 0;
+    CALL(g = secp256k1_bppp_generators_create(ctx, n));
+    if (!g) { R_int(0); return; }
+    CALL(r = secp256k1_bppp_generators_serialize(ctx, g, out, &l)); CALL(secp256k1_bppp_generators_destroy(ctx, g));
+    R_int(1); R_int(r); R_u64(l); R_hex(out, 33 * n);
+}
+/* bppp_gens_parse data buflen -> nonnull ser_ret outlen reserialized */
+static void op_bppp_gens_parse(void) {
+    size_t dl; unsigned char *d = A_blob(0, &dl); size_t bl = (size_t)A_u64(1), ol = bl; secp256k1_bppp_generators *g; unsigned char *out = O_buf(bl); int r;
+    if (g_bad) return;
+    CALL(g = secp256k1_bppp_generators_parse(ctx, d, dl));
+    if (!g) { R_int(0); return; }
+    CALL(r = secp256k1_bppp_generators_serialize(ctx, g, out, &ol)); CALL(secp256k1_bppp_generators_destroy(ctx, g));
+    R_int(1); R_int(r); R_u64(ol); R_hex(out, bl);
+}
+static void load_scalars(secp256k1_scalar *out, const unsigned char *b, size_t n) { size_t i; for (i = 0; i < n; i++) secp256k1_scalar_set_b32(&out[i], b + 32 * i, NULL); }
+/* bppp_norm_prove scratch_size(0 = NULL) prefix rho32 gens_ser n_vec l_vec c_vec -> ret proof commit33 */
+static void op_bppp_norm_prove(void) {
+    size_t ss = (size_t)A_u64(0), pl, gl, nl, ll, cl; unsigned char *pre = A_blob(1, &pl), *rho32 = A_fix(2, 32, 0), *gs = A_blob(3, &gl), *nb = A_blob(4, &nl), *lb = A_blob(5, &ll), *cb = A_blob(6, &cl);
+    secp256k1_scratch_space *scratch = NULL; secp256k1_bppp_generators *gens; secp256k1_scalar rho, mu, *nv, *lv, *cv; secp256k1_ge commit; secp256k1_sha256 tr; unsigned char *proof; size_t prl; int r, rc; size_t nn, ln, rounds, a, b2; unsigned char c33[33];
+    if (g_bad) return;
+    nn = nl / 32; ln = ll / 32;
+    if (cl != ll || nn == 0 || ln == 0 || (nn & (nn - 1)) || (ln & (ln - 1)) || gl != 33 * (nn + ln)) { bad("prover preconditions (caller bug)", 4); return; }
+    CALL(gens = secp256k1_bppp_generators_parse(ctx, gs, gl));
+    if (!gens) { bad("generator list does not parse", 3); return; }
+    if (ss) CALL(scratch = secp256k1_scratch_space_create(ctx, ss));
+    nv = (secp256k1_scalar *)keep(xmalloc(sizeof(*nv) * nn)); lv = (secp256k1_scalar *)keep(xmalloc(sizeof(*lv) * ln)); cv = (secp256k1_scalar *)keep(xmalloc(sizeof(*cv) * ln));
+    load_scalars(nv, nb, nn); load_scalars(lv, lb, ln); load_scalars(cv, cb, ln);
+    secp256k1_scalar_set_b32(&rho, rho32, NULL); secp256k1_scalar_sqr(&mu, &rho);
+    a = secp256k1_bppp_log2(nn); b2 = secp256k1_bppp_log2(ln); rounds = a > b2 ? a : b2; prl = 65 * rounds + 64; proof = O_buf(prl);
+    CALL(rc = secp256k1_bppp_commit(ctx, scratch, &commit, gens, nv, nn, lv, ln, cv, ln, &mu));
+    secp256k1_ge_serialize_ext(c33, &commit);
+    secp256k1_sha256_initialize(&tr); secp256k1_sha256_write(secp256k1_get_hash_context(ctx), &tr, pre, pl);
+    CALL(r = secp256k1_bppp_rangeproof_norm_product_prove(ctx, scratch, proof, &prl, &tr, &rho, gens->gens, gens->n, nv, nn, lv, ln, cv, ln));
+    R_int(r); R_int(rc); R_u64(prl); R_hex(proof, 65 * rounds + 64); R_hex(c33, 33);
+    if (scratch) CALL(secp256k1_scratch_space_destroy(ctx, scratch));
+    CALL(secp256k1_bppp_generators_destroy(ctx, gens));
+}
+/* bppp_norm_verify scratch_size prefix rho32 gens_ser g_len c_vec commit33 proof -> ret */
+static void op_bppp_norm_verify(void) {
+    size_t ss = (size_t)A_u64(0), pl, gl, cl, prl; unsigned char *pre = A_blob(1, &pl), *rho32 = A_fix(2, 32, 0), *gs = A_blob(3, &gl); size_t g_len = (size_t)A_u64(4);
+    unsigned char *cb = A_blob(5, &cl), *c33 = A_fix(6, 33, 0), *proof = A_blob(7, &prl);
+    secp256k1_scratch_space *scratch = NULL; secp256k1_bppp_generators *gens; secp256k1_scalar rho, *cv; secp256k1_ge commit; secp256k1_sha256 tr; int r; size_t cn;
+    if (g_bad) return;
+    cn = cl / 32;
+    CALL(gens = secp256k1_bppp_generators_parse(ctx, gs, gl));
+    if (!gens) { bad("generator list does not parse", 3); return; }
+    if (!secp256k1_ge_parse_ext(&commit, c33)) { bad("commit does not parse", 6); CALL(secp256k1_bppp_generators_destroy(ctx, gens)); return; }
+    CALL(scratch = secp256k1_scratch_space_create(ctx, ss));
+    cv = (secp256k1_scalar *)keep(xmalloc(sizeof(*cv) * (cn ? cn : 1))); load_scalars(cv, cb, cn);
+    secp256k1_scalar_set_b32(&rho, rho32, NULL);
+    secp256k1_sha256_initialize(&tr); secp256k1_sha256_write(secp256k1_get_hash_context(ctx), &tr, pre, pl);
+    CALL(r = secp256k1_bppp_rangeproof_norm_product_verify(ctx, scratch, proof, prl, &tr, &rho, gens, g_len, cv, cn, &commit));
+    R_int(r);
+    CALL(secp256k1_scratch_space_destroy(ctx, scratch));
+    CALL(secp256k1_bppp_generators_destroy(ctx, gens));
+}
+
+#undef OPS_ZKP
+#define OPS_ZKP \
+    { "sizes", op_sizes }, { "generator_h", op_generator_h }, { "generator_parse", op_generator_parse }, { "generator_serialize", op_generator_serialize }, \
+    { "generator_generate", op_generator_generate }, { "generator_generate_blinded", op_generator_generate_blinded }, \
+    { "commitment_parse", op_commitment_parse }, { "commitment_serialize", op_commitment_serialize }, { "pedersen_commit", op_pedersen_commit }, \
+    { "pedersen_blind_sum", op_pedersen_blind_sum }, { "pedersen_verify_tally", op_pedersen_verify_tally }, { "pedersen_bgbs", op_pedersen_bgbs }, \
+    { "rangeproof_sign", op_rangeproof_sign }, { "rangeproof_verify", op_rangeproof_verify }, { "rangeproof_rewind", op_rangeproof_rewind }, \
+    { "rangeproof_info", op_rangeproof_info }, { "rangeproof_max_size", op_rangeproof_max_size }, \
+    { "surj_parse", op_surj_parse }, { "surj_serialize", op_surj_serialize }, { "surj_counts", op_surj_counts }, { "surj_initialize", op_surj_initialize }, \
+    { "surj_generate", op_surj_generate }, { "surj_verify", op_surj_verify }, \
+    { "wl_parse", op_wl_parse }, { "wl_serialize", op_wl_serialize }, { "wl_n_keys", op_wl_n_keys }, { "wl_sign", op_wl_sign }, { "wl_verify", op_wl_verify }, { "wl_verify_n", op_wl_verify_n }, \
+    { "bppp_gens_create", op_bppp_gens_create }, { "bppp_gens_parse", op_bppp_gens_parse }, { "bppp_norm_prove", op_bppp_norm_prove }, { "bppp_norm_verify", op_bppp_norm_verify },
